@@ -111,7 +111,18 @@ Definition dump (s : cstate) : string :=
       "select_into=" ++ d_bool (q_select_into _ s);
       "subquery_count=" ++ Z_to_string (q_subquery_count _ s);
       "foreign_table=" ++ d_bool (q_foreign_table _ s);
-      "mysql_rollup=" ++ d_bool (q_mysql_rollup _ s) ].
+      "mysql_rollup=" ++ d_bool (q_mysql_rollup _ s);
+      "hint=" ++ d_ostr (q_hint _ s);
+      "modifiers=" ++ d_list (q_modifiers _ s);
+      "final=" ++ d_bool (q_final _ s);
+      "sample=" ++ d_oz (q_sample _ s);
+      "sample_offset=" ++ d_oz (q_sample_offset _ s);
+      "limit_by=" ++ match q_limit_by _ s with
+                     | None => "None"
+                     | Some (n, off, by_) => Z_to_string n ++ "," ++ Z_to_string off ++ "," ++ d_list (map d_term by_)
+                     end;
+      "distinct_on=" ++ d_list (map d_term (q_distinct_on _ s));
+      "insert_or_replace=" ++ d_bool (q_insert_or_replace _ s) ].
 
 (* a correspondence case: the calls, and for several orders (lists of positions) the implementation's
    outcome: "!ExceptionClass" or the dump of the final state *)
